@@ -12,4 +12,13 @@ if __name__ == "__main__":
         raise SystemExit(2)
     prop = sys.argv[1].lower()
     from harness import common
-    raise SystemExit(common.main("harness." + prop, sys.argv[2:]))
+    try:
+        code = common.main("harness." + prop, sys.argv[2:])
+    except SystemExit:
+        raise
+    except BaseException as ex:  # noqa: BLE001 - a crash of the machinery is never a verdict on the code under test
+        import traceback
+        traceback.print_exc()
+        print("INCONCLUSIVE property=%s reason=harness error: %s: %s" % (prop.upper(), type(ex).__name__, ex))
+        code = 2
+    raise SystemExit(code)
